@@ -1,6 +1,6 @@
 (* Props/C09.v — C09: latency control bounds queued stream data and never wedges. *)
 From Coq Require Import List NArith Ascii Bool Lia.
-From SV Require Import Model.StreamQuiet Proofs.Stream_quiet Model.StreamDrain Proofs.Stream_drain Proofs.Stream_drain_clean Proofs.Stream_flow Proofs.Stream_props Lib.Bytes Model.Wire Model.Chan Model.Stream
+From SV Require Import Model.StreamQuiet Proofs.Stream_quiet Model.StreamDrain Proofs.Stream_drain Proofs.Stream_drain_clean Model.StreamLoop Proofs.Stream_loop Proofs.Stream_reg Proofs.Stream_flow Proofs.Stream_props Lib.Bytes Model.Wire Model.Chan Model.Stream
   Proofs.Stream_basic Proofs.Stream_wrap Proofs.Stream_cb Proofs.Stream_lat Gen.Consts.
 Import ListNotations.
 Local Open Scope N_scope.
@@ -137,3 +137,13 @@ Example c09_ex_pause :
   x_too_full (check_fullness x LATENCY_BUFFER_SIZE) = true /\
   length (x_out (check_fullness (check_fullness x LATENCY_BUFFER_SIZE) LATENCY_BUFFER_SIZE)) = 1%nat.
 Proof. vm_compute. split; reflexivity. Qed.
+
+(* The main loop (Model/StreamLoop.v; see Props/C02.v (g)): in every state reached by complete iterations of the two
+   loops, an end that is paused (too_full) and whose select() has nothing ready has no round-trip request left in its
+   OWN queue: the request is on the wire towards the peer, or its answer already sits in the peer's queue — the
+   sleeper will be woken.  (fx: runonce as found / repaired; both.) *)
+Theorem c09_paused_sleeper_probe_out : forall (fx lat : bool) maxc lbs w sd,
+  lreach_v fx lat maxc lbs w -> sleeps_eagerb_v fx sd w = true -> x_too_full (e_mux (get_end w sd)) = true ->
+  has_ping (inlink w sd) = true \/ has_pong (x_out (e_mux (get_end w (other sd)))) = true.
+Proof. exact paused_sleeper_probe_out_v. Qed.
+Print Assumptions c09_paused_sleeper_probe_out.
